@@ -57,12 +57,14 @@ CLAIMED = {
              "layer, a block restores the stack), and `Vars.skip_detected`: in ANY state with a pending `goto l`, for ANY statements "
              "in between (not containing `l:`) and after, a variable declared at that level before `l:` and used after it is "
              "reported (E482, or E422 if its declaration clashed) - by invariants preserved by every statement (`goStmt_pending`, "
-             "`goStmt_fresh`, `goStmt_persist`). Partial: the converse (E482 only when a path skips the declaration) is not a "
-             "theorem; both directions are checked three-way (real compiler vs model vs an independent must-declared CFG analysis) "
+             "`goStmt_fresh`, `goStmt_persist`). Converse `Vars.no_false_e482`: whenever a function's analysis reports E482 its body "
+             "contains, in textual order, `goto l`, the declaration of the used variable, `l:` (no other `l:` in between) and the use "
+             "(the walk is a fold over the body's events, `goStmt_run`; history invariant `TInv` preserved by every event, `step_inv`). "
+             "Both directions are also checked three-way (real compiler vs model vs an independent must-declared CFG analysis) "
              "on exhaustive small scopes and random bodies.",
         note="Trusted: Lean kernel (+propext), transcription of variable_references.rs (checked by correspondence on the code multiset "
              "{402,422,424,482}), the Python CFG oracle used for the E482 verdict, harness, renderer. Only label-correct bodies are evaluated.",
-        technique="Lean 4 proof (decision logic, stack invariants, skipped-declaration completeness by mutual induction) + three-way model/implementation/CFG-oracle correspondence",
+        technique="Lean 4 proof (decision logic, stack invariants, skipped-declaration completeness by mutual induction, no-false-E482 by a history invariant) + three-way model/implementation/CFG-oracle correspondence",
         design="§4 C05"),
     "C06": dict(
         text="Lean theorems `Place.placement_iff` and `Place.lint_iff`: for every statement tree the model of "
@@ -210,11 +212,14 @@ CLAIMED = {
              "production (random literal spellings, shorthand, trailing commas, layouts, comments) and every corpus file the first "
              "generation accepts, the tree decoded from the second-generation XML dump (balanced, MALFORMED-free), the "
              "first-generation AST, the Lean parser's tree of the REAL token stream and the generator's own tree must be "
-             "identical canonical S-expressions. Partial: the flat node layout itself (5-node context window) is tied only "
-             "through the XML reader and the node-sequence comparison of C15, not by a Lean encode/decode theorem.",
+             "identical canonical S-expressions. Flat layout: `Layout.encModuleR` lays a module out as the parser pushes it (variants, "
+             "absolute node ids in Item/List/ListItem/ThenElse/If/Block/FunctionImpl, private-zone markers and their in-place patch) "
+             "and is compared with the real node array and declaration roots of every module on every run; `Layout.readDecl` follows "
+             "print_xml (node + 5-node context window + stored ids); theorem `flat_tree_faithful`: for every module reading the buffer "
+             "at the declaration roots gives the declarations back (all sizes/nestings), hence `flat_tree_injective`.",
         note="Trusted: Lean kernel, checks/xmltree.py (XML -> tree, string-literal decoding), harness AST serialiser, generator. "
              "Normalisations stated in DESIGN: the first generation folds `-literal`, treats `return:` as a label, keeps `foo!` names.",
-        technique="Lean 4 proof (parser/printer round trip) + four-way tree correspondence on generated and corpus modules",
+        technique="Lean 4 proof (parser/printer round trip; flat-layout encode/read-back) + four-way tree and node-array correspondence on generated and corpus modules",
         design="§4 C16"),
     "C17": dict(
         text="Lean model of the flat node array and of build_header_nodes (skip private zones, stop at the endless zone, "
